@@ -21,7 +21,7 @@ Theorem rejected_after_two (Inv1 Inv2 : st -> Prop) (d1 d2 : stmt) (e : expr) :
       (pre ++ d1 :: mid1 ++ d2 :: mid2 ++ SDefinition dname dvar dkind dty (plug_e e (SStatementExpression e sp0) C) dsp :: post)) <> Ok tt.
 Proof.
   intros IE1 IE2 Hd1 Hd2 He pre mid1 mid2 post dname dvar dkind dty C dsp sp0 fuel vars.
-  apply typecheck_notok. intros s W. unfold solve. apply bind_notok_l.
+  apply typecheck_notok_main. intros s W.
   set (kinds := kinds_of vars 1 (PositiveMap.empty varkind)).
   pose proof (gfix_pres fuel) as PG. pose proof (afix_pres kinds (gfix fuel) PG fuel) as PA.
   apply (iterM_notok_after2 _ Inv1 Inv2); try assumption.
